@@ -10,19 +10,19 @@ C = {
 "C03": ("reference-model monitor: broadcast operands used 1-3 times over 1-3 passes on the exhaustive shape-pair grid, gradient shape + summed adjoint; optimizer consequence observed after a real GradientDescent::update", "8 (C03)"),
 "C04": ("reference-model monitor: exhaustive shape-pair grid (14400 pairs x 5 ops) + random pairs vs multi-index reference zip, bit-exact; refusals observed as panics", "8 (C04)"),
 "C05": ("reference-model monitor: enumerated matmul grid (sizes x transposes x leading patterns x additive-term forms), rank-1 forms, perturbed-inner-dimension refusals, non-finite data; bit-exact", "8 (C05)"),
-"C06": ("reference-model monitor: enumerated / random convolution configurations vs the 7-loop sliding-window definition, bit-exact, bucket floors (batch x overlap x remainder)", "8 (C06)"),
+"C06": ("reference-model monitor: enumerated / random convolution configurations vs the 7-loop sliding-window definition, bit-exact, bucket floors (batch x overlap x remainder); frame streams (image dropped, next frame of the same geometry built in the freed buffer and convolved with the same filters)", "8 (C06)"),
 "C07": ("reference-model + invariant monitor: every function on every shape of the grid, tracked and untracked operands, reshape refusals, softmax row invariant", "8 (C07)"),
 "C08": ("snapshot monitor over long histories: every live alias (clones, views, graph operands, fetched gradients, seeds, pre-update parameters) re-verified bitwise after every step; valgrind memcheck (quick) and Miri + ASan (thorough) stages for in-place writes no alias observes", "8 (C08), 6"),
-"C09": ("state monitors: flag reader over the exhaustive operation x tracked-subset table, sole-owner probes, gradient presence vs reference reachability, flags before/after passes, metamorphic second pass, plainness of produced gradients, clone independence, tracked model inputs / targets and cost closures", "8 (C09)"),
-"C10": ("history ledger monitor: after every step of random pass / clear / install / toggle / drop histories (and over by-hand and Model passes on real layers) each handle's gradient equals the sum of reference single-pass gradients since its last clear; metamorphic fresh-instance replay of every pass; hook-steered follow-up passes", "8 (C10)"),
+"C09": ("state monitors: flag reader over the exhaustive operation x tracked-subset table, sole-owner probes, gradient presence vs reference reachability, flags before/after passes, metamorphic second pass, plainness of produced gradients, clone independence, tracked model inputs (also after a plain evaluation of the same batch on the same Model) / targets and cost closures", "8 (C09)"),
+"C10": ("history ledger monitor: after every step of random pass / clear / install / toggle / drop histories (and over by-hand and Model passes on real layers) each handle's gradient equals the sum of reference single-pass gradients since its last clear; metamorphic fresh-instance replay of every pass; hook-steered follow-up passes; flag-changed clones and re-used seed arrays as history steps; the Model's prediction gradient compared when present", "8 (C10)"),
 "C11": ("trace monitor: invocation log of user derivative closures (Array::op) with fail-fast on a second call; exactly-once, after-all-consumers and complete-adjoint checks over exhaustive small topologies, random DAGs, 2^60-path chains, repeated passes with the caller's seed handle; a scaling probe (thread CPU time of one pass at depth 8 vs 18) for 'work proportional to nodes'; hook trace for built-ins as coverage", "8 (C11)"),
-"C12": ("metamorphic monitor: each program vs variants with clones substituted, handles dropped at last use, pass started from clones, gradients read through clones, optimizer step with/without other handles alive; bitwise equality", "8 (C12)"),
-"C13": ("direct-arithmetic monitor: every (n<=6, gradient subset) pair, gradients installed directly or by real passes, repeated updates; values compared bitwise in the build's float type, frozen parameters must keep their very buffer", "8 (C13)"),
+"C12": ("metamorphic monitor: each program vs variants with clones substituted, handles dropped at last use, pass started from clones, gradients read through clones or after detached copies were taken, optimizer step with/without other handles alive; bitwise equality", "8 (C12)"),
+"C13": ("direct-arithmetic monitor: every (n<=6, gradient subset) pair, gradients installed directly or by real passes, repeated updates, parameters sharing a value buffer, one-entry lists; values compared bitwise in the build's float type, frozen parameters must keep their very buffer", "8 (C13)"),
 "C14": ("history checker over boundary-spy events (SpyLayer/SpyOptimizer inside the real Model): loss, gradients seen by the optimizer and parameters left, per iteration, vs a forward-mode reference step from the observed parameters, under the disturbances user code may cause between the calls", "8 (C14)"),
-"C15": ("reference-model monitor: layer / model / cost formulas on parameters set and read through Layer::parameters(); integer data exact for linear+relu", "8 (C15)"),
+"C15": ("reference-model monitor: layer / model / cost formulas on parameters set and read through Layer::parameters() (also on layers constructed at other sizes); integer data exact for linear+relu", "8 (C15)"),
 "C16": ("direct monitor: constructors, nested construction, every multi-index and flat index on the exhaustive shape grid, refusals, equality truth table", "8 (C16)"),
 "C17": ("metamorphic monitor: G(a*s1+b*s2) == a*G(s1)+b*G(s2) and G(None) == G(ones) on fresh instances of the same program", "8 (C17)"),
-"C18": ("ownership monitors: sole-owner probe (Vec::from) on every leaf after dropping results, allocation-ledger conservation around programs / histories / training iterations, input / target probes in training and inference loops, a token held by every user derivative closure; valgrind leak check (quick), Miri + LSan (thorough)", "8 (C18), 6"),
+"C18": ("ownership monitors: sole-owner probe (Vec::from) on every leaf after dropping results, allocation-ledger conservation around programs (a discrepancy must reproduce in three further executions) / histories / training iterations, input / target probes in training and inference loops, a token held by every user derivative closure; valgrind leak check (quick), Miri + LSan (thorough)", "8 (C18), 6"),
 "C19": ("the monitors of C01-C07 and C09-C17 recompiled with --features f32 (f32 exactness bound, tau 2e-5) plus an offline diff of per-case metadata logs between the f64 and f32 builds", "8 (C19)"),
 }
 props = [json.loads(l) for l in open(os.path.join(ROOT, "properties.jsonl"))]
